@@ -208,9 +208,10 @@ func (d *Decoder) Decode(v interface{}) error {
 // DecodeContext reads the next JSON-encoded value from its
 // input and stores it in the value pointed to by v with context.Context.
 func (d *Decoder) DecodeContext(ctx context.Context, v interface{}) error {
-	d.s.Option.Flags |= decoder.ContextOption
-	d.s.Option.Context = ctx
-	return d.DecodeWithOption(v)
+	return d.DecodeWithOption(v, func(opt *decoder.Option) {
+		opt.Flags |= decoder.ContextOption
+		opt.Context = ctx
+	})
 }
 
 func (d *Decoder) DecodeWithOption(v interface{}, optFuncs ...DecodeOptionFunc) error {
@@ -236,6 +237,11 @@ func (d *Decoder) DecodeWithOption(v interface{}, optFuncs ...DecodeOptionFunc) 
 		return err
 	}
 	s := d.s
+	if len(optFuncs) > 0 {
+		// the options of this call apply to this call only
+		saved := *s.Option
+		defer func() { *s.Option = saved }()
+	}
 	for _, optFunc := range optFuncs {
 		optFunc(s.Option)
 	}
